@@ -83,7 +83,13 @@ func VerifH_C21_Subscriptions() {
 
 // C21 part D / C26 kernel: one round of the publish loop (the real publish(), sendPublishRequest,
 // handleAcks, handleNotification, notifySubscription) against a PublishResponse of arbitrary shape.
-func VerifH_C26_PublishStep() {
+func VerifH_C26_PublishStep() { vfPublishRound(true) }
+
+// C21: the same publish round with every result shape; only run-time panics matter here
+// (e.g. fewer acknowledgement results than acknowledgements sent).
+func VerifH_C21_PublishRound() { vfPublishRound(false) }
+
+func vfPublishRound(oracle bool) {
 	var lastReq *ua.PublishRequest
 	subID := vfU32("subscriptionID")
 	seq := vfU32("sequenceNumber")
@@ -128,6 +134,10 @@ func VerifH_C26_PublishStep() {
 	if lastReq == nil {
 		return
 	}
+	if !oracle {
+		vfReach("returned")
+		return
+	}
 	// the request carries exactly the pending list
 	vfAssert(len(lastReq.SubscriptionAcknowledgements) == npend, "the publish request does not carry exactly the pending acknowledgements")
 	if err != nil {
@@ -159,4 +169,76 @@ func VerifH_C26_PublishStep() {
 		vfAssert(len(notif) == 1, "a data change notification is not delivered exactly once")
 	}
 	vfReach("round")
+}
+
+// C26 (recreate kernel): after the reconnect logic decides to recreate a subscription, every
+// monitored item registered on it is created again on the server — with its own
+// TimestampsToReturn and client handle, on the new subscription id — and stays registered, so
+// that a second recreate restores all of them again.
+func VerifH_C26_Recreate() {
+	vfFixedClock(true) // nothing here depends on time; keeps message timestamps concrete
+	type created struct {
+		sub    uint32
+		ts     ua.TimestampsToReturn
+		handle uint32
+	}
+	var log []created
+	nextSub, nextItem := uint32(5), uint32(100)
+	c := vfConnectedClient(func(req ua.Request) ua.Response {
+		switch r := req.(type) {
+		case *ua.CreateSubscriptionRequest:
+			id := nextSub
+			nextSub++
+			return &ua.CreateSubscriptionResponse{ResponseHeader: vfRH(), SubscriptionID: id, RevisedPublishingInterval: 100, RevisedLifetimeCount: 10, RevisedMaxKeepAliveCount: 3}
+		case *ua.DeleteSubscriptionsRequest:
+			return &ua.DeleteSubscriptionsResponse{ResponseHeader: vfRH(), Results: []ua.StatusCode{ua.StatusOK}}
+		case *ua.CreateMonitoredItemsRequest:
+			res := &ua.CreateMonitoredItemsResponse{ResponseHeader: vfRH()}
+			for _, it := range r.ItemsToCreate {
+				nextItem++
+				log = append(log, created{r.SubscriptionID, r.TimestampsToReturn, it.RequestedParameters.ClientHandle})
+				res.Results = append(res.Results, &ua.MonitoredItemCreateResult{StatusCode: ua.StatusOK, MonitoredItemID: nextItem, RevisedSamplingInterval: 100, RevisedQueueSize: 1, FilterResult: ua.NewExtensionObject(nil)})
+			}
+			return res
+		}
+		return &ua.ServiceFault{ResponseHeader: vfRH()}
+	})
+	ctx := context.Background()
+	notif := make(chan *PublishNotificationData, 8)
+	sub, err := c.Subscribe(ctx, &SubscriptionParameters{}, notif)
+	vfAssert(err == nil && sub != nil, "Subscribe fails")
+	if sub == nil {
+		return
+	}
+	n := vfConcrete(vfInt("items", 1, vfParam("c26.items", 3)))
+	ts := make([]ua.TimestampsToReturn, n)
+	for i := 0; i < n; i++ {
+		ts[i] = ua.TimestampsToReturn(vfConcrete(vfInt("timestamps", 0, 2)))
+		res, err := sub.Monitor(ctx, ts[i], NewMonitoredItemCreateRequestWithDefaults(ua.NewNumericNodeID(1, uint32(1000+i)), ua.AttributeIDValue, uint32(10+i)))
+		vfAssert(err == nil && res != nil && len(res.Results) == 1, "Monitor fails")
+	}
+	for round := 1; round <= 2; round++ {
+		log = nil
+		old := sub.SubscriptionID
+		for len(c.pausech) > 0 { // the publish loop (not running here) consumes pause signals
+			<-c.pausech
+		}
+		err = c.recreateSubscription(ctx, old)
+		vfAssert(err == nil, "recreating a subscription fails although the server accepts every request")
+		vfAssert(sub.SubscriptionID != old && c.subs[sub.SubscriptionID] == sub && c.subs[old] == nil && len(c.subs) == 1, "the recreated subscription is not registered under its new id only")
+		vfAssert(len(log) == n, "a recreate does not create every monitored item of the subscription exactly once")
+		for i := 0; i < n; i++ {
+			found := 0
+			for _, e := range log {
+				if e.handle == uint32(10+i) {
+					found++
+					vfAssert(e.ts == ts[i], "a monitored item is recreated with another TimestampsToReturn")
+					vfAssert(e.sub == sub.SubscriptionID, "a monitored item is recreated on another subscription id")
+				}
+			}
+			vfAssert(found == 1, "a monitored item is missing (or duplicated) after a recreate")
+		}
+		vfAssert(len(sub.items) == n, "the subscription lost track of monitored items after a recreate")
+	}
+	vfReach("recreated")
 }
